@@ -1,11 +1,1049 @@
-// Package c11 - correspondence harness for C11 (stub: not built yet).
+// Package c11 drives the real notation.SignOCI over sequences of up to 3 signing calls with
+// an instrumented signer and repository: (a) a mock repository whose Resolve hands out its
+// own annotation map (or a copy), (b) oras-go's memory.Store and (c) real OCI layouts on disk
+// (fresh oci.Store, and the layout re-opened through registry.NewOCIRepository), all wrapped
+// in a recording proxy. Every argument object is deep-copied before a call and compared after.
 package c11
 
 import (
+	"bytes"
+	"context"
+	"crypto/sha256"
+	"encoding/hex"
+	"encoding/json"
 	"errors"
+	"fmt"
+	"os"
+	"path/filepath"
+	"reflect"
+	"sort"
+	"time"
 
+	"github.com/notaryproject/notation-core-go/signature"
+	"github.com/notaryproject/notation-go"
+	"github.com/notaryproject/notation-go/registry"
 	"github.com/notaryproject/notation-go/xverif/common"
+	"github.com/opencontainers/go-digest"
+	ocispec "github.com/opencontainers/image-spec/specs-go/v1"
+	"oras.land/oras-go/v2"
+	"oras.land/oras-go/v2/content/memory"
+	"oras.land/oras-go/v2/content/oci"
+	"oras.land/oras-go/v2/registry/remote"
 )
 
-// Run generates the cases of C11.
-func Run(c *common.Ctx) error { return errors.New("C11: harness not built yet") }
+// ---- JSON shapes of Lean's Input / Obs ------------------------------------------------------
+
+type KV = [2]string
+
+type Art struct {
+	MediaType string `json:"mediaType"`
+	Digest    string `json:"digest"`
+	Size      int64  `json:"size"`
+	Ann       []KV   `json:"ann"`
+}
+
+type Repo struct {
+	Aliased       bool   `json:"aliased"`
+	PlainByDigest bool   `json:"plainByDigest"`
+	AnyDigest     bool   `json:"anyDigest"`
+	Push          string `json:"push"`
+}
+
+type SignerCfg struct {
+	Kind      string   `json:"kind"`
+	Thumbs    []string `json:"thumbs"`
+	Time      int64    `json:"time"`
+	PluginAnn []KV     `json:"pluginAnn"`
+}
+
+type Call struct {
+	Ref  string `json:"ref"`
+	Md   []KV   `json:"md"`
+	Opts string `json:"opts"`
+}
+
+type Input struct {
+	Backend      string    `json:"backend"`
+	Art          Art       `json:"art"`
+	Repo         Repo      `json:"repo"`
+	Signer       SignerCfg `json:"signer"`
+	PluginConfig []KV      `json:"pluginConfig"`
+	Calls        []Call    `json:"calls"`
+}
+
+type DescObs struct {
+	MediaType string `json:"mediaType"`
+	Digest    string `json:"digest"`
+	Size      int64  `json:"size"`
+	Ann       []KV   `json:"ann"`
+}
+
+type CallObs struct {
+	Ok           bool     `json:"ok"`
+	ResolveArg   *string  `json:"resolveArg"`
+	Signed       *DescObs `json:"signed"`
+	Subject      *DescObs `json:"subject"`
+	PushAnn      *[]KV    `json:"pushAnn"`
+	Returned     string   `json:"returned"`
+	RepoViewSame bool     `json:"repoViewSame"`
+	HandedSame   bool     `json:"handedSame"`
+	OptsSame     bool     `json:"optsSame"`
+	SigCount     int      `json:"sigCount"`
+}
+
+type Obs struct {
+	Calls []CallObs `json:"calls"`
+}
+
+// ---- helpers --------------------------------------------------------------------------------
+
+func pairs(m map[string]string) []KV {
+	out := make([]KV, 0, len(m))
+	for k, v := range m {
+		out = append(out, KV{k, v})
+	}
+	sort.Slice(out, func(a, b int) bool { return out[a][0] < out[b][0] })
+	return out
+}
+
+// toMap builds a Go map; for empty contents nilIfEmpty chooses between nil and an empty map.
+func toMap(kv []KV, nilIfEmpty bool) map[string]string {
+	if len(kv) == 0 && nilIfEmpty {
+		return nil
+	}
+	m := make(map[string]string, len(kv))
+	for _, p := range kv {
+		m[p[0]] = p[1]
+	}
+	return m
+}
+
+func cloneMap(m map[string]string) map[string]string {
+	if m == nil {
+		return nil
+	}
+	c := make(map[string]string, len(m))
+	for k, v := range m {
+		c[k] = v
+	}
+	return c
+}
+
+func cloneDesc(d ocispec.Descriptor) ocispec.Descriptor {
+	c := d
+	c.Annotations = cloneMap(d.Annotations)
+	c.URLs = append([]string(nil), d.URLs...)
+	c.Data = append([]byte(nil), d.Data...)
+	if d.Platform != nil {
+		p := *d.Platform
+		c.Platform = &p
+	}
+	return c
+}
+
+// sameDesc: equal in every field; nil and empty maps / slices are not distinguished.
+func sameDesc(a, b ocispec.Descriptor) bool {
+	if a.MediaType != b.MediaType || a.Digest != b.Digest || a.Size != b.Size || a.ArtifactType != b.ArtifactType {
+		return false
+	}
+	if !reflect.DeepEqual(pairs(a.Annotations), pairs(b.Annotations)) {
+		return false
+	}
+	if len(a.URLs) != len(b.URLs) || !bytes.Equal(a.Data, b.Data) {
+		return false
+	}
+	for i := range a.URLs {
+		if a.URLs[i] != b.URLs[i] {
+			return false
+		}
+	}
+	if (a.Platform == nil) != (b.Platform == nil) || (a.Platform != nil && !reflect.DeepEqual(*a.Platform, *b.Platform)) {
+		return false
+	}
+	return true
+}
+
+func sameMap(a, b map[string]string) bool { return reflect.DeepEqual(pairs(a), pairs(b)) }
+
+func descObs(d ocispec.Descriptor) *DescObs {
+	return &DescObs{MediaType: d.MediaType, Digest: d.Digest.String(), Size: d.Size, Ann: pairs(d.Annotations)}
+}
+
+// ---- the signer -----------------------------------------------------------------------------
+
+type signer struct {
+	cfg        SignerCfg
+	chain      *common.Chain
+	zone       *time.Location
+	annNil     bool // PluginAnnotations() answers nil rather than an empty map when there are none
+	got        []ocispec.Descriptor
+	gotCfg     []map[string]string
+	annotation map[string]string
+}
+
+func (s *signer) Sign(ctx context.Context, desc ocispec.Descriptor, opts notation.SignerSignOptions) ([]byte, *signature.SignerInfo, error) {
+	s.got = append(s.got, cloneDesc(desc))
+	s.gotCfg = append(s.gotCfg, opts.PluginConfig)
+	if s.cfg.Kind == "fails" {
+		return nil, nil, errors.New("signer failure")
+	}
+	target := desc
+	env, err := common.SignEnvelope(common.EnvOpts{Format: opts.SignatureMediaType, Chain: s.chain, Target: &target,
+		SigningTime: time.Unix(s.cfg.Time, 0)})
+	if err != nil {
+		panic(fmt.Sprintf("c11: SignEnvelope: %v", err))
+	}
+	parsed, err := signature.ParseEnvelope(opts.SignatureMediaType, env)
+	if err != nil {
+		panic(fmt.Sprintf("c11: ParseEnvelope: %v", err))
+	}
+	content, err := parsed.Content()
+	if err != nil {
+		panic(fmt.Sprintf("c11: Content: %v", err))
+	}
+	// like signer.PluginSigner: the annotations of this signing are a map made during Sign
+	s.annotation = toMap(s.cfg.PluginAnn, s.annNil)
+	if s.cfg.Kind == "nilInfo" {
+		return env, nil, nil
+	}
+	si := content.SignerInfo
+	if si.SignedAttributes.SigningTime.Unix() != s.cfg.Time {
+		panic("c11: the envelope's signing time is not the requested one")
+	}
+	if s.cfg.Kind == "noTime" {
+		si.SignedAttributes.SigningTime = time.Time{}
+	} else {
+		// the same instant in some other zone
+		si.SignedAttributes.SigningTime = si.SignedAttributes.SigningTime.In(s.zone)
+	}
+	return env, &si, nil
+}
+
+// annotatingSigner additionally implements notation's (unexported) signerAnnotation interface.
+type annotatingSigner struct{ *signer }
+
+func (s annotatingSigner) PluginAnnotations() map[string]string { return s.signer.annotation }
+
+// ---- repositories ---------------------------------------------------------------------------
+
+// mockRepo holds one artifact; art.Annotations is the repository's own map object.
+type mockRepo struct {
+	art     ocispec.Descriptor
+	cfg     Repo
+	other   map[string]bool // further well-formed digests somebody might ask for
+	nilCopy bool
+	pushed  []ocispec.Descriptor
+}
+
+func (r *mockRepo) handOut() ocispec.Descriptor {
+	d := r.art
+	if !r.cfg.Aliased {
+		d.Annotations = cloneMap(r.art.Annotations)
+		if len(d.Annotations) == 0 && r.nilCopy {
+			d.Annotations = nil
+		}
+	}
+	return d
+}
+
+func (r *mockRepo) byDigest() ocispec.Descriptor {
+	if r.cfg.PlainByDigest {
+		return ocispec.Descriptor{MediaType: r.art.MediaType, Digest: r.art.Digest, Size: r.art.Size}
+	}
+	return r.handOut()
+}
+
+func (r *mockRepo) Resolve(ctx context.Context, reference string) (ocispec.Descriptor, error) {
+	switch {
+	case reference == "v1":
+		return r.handOut(), nil
+	case reference == r.art.Digest.String():
+		return r.byDigest(), nil
+	case r.other[reference] && r.cfg.AnyDigest:
+		return r.byDigest(), nil
+	}
+	return ocispec.Descriptor{}, fmt.Errorf("%s: not found", reference)
+}
+
+func (r *mockRepo) ListSignatures(ctx context.Context, desc ocispec.Descriptor, fn func([]ocispec.Descriptor) error) error {
+	return fn(r.pushed)
+}
+
+func (r *mockRepo) FetchSignatureBlob(ctx context.Context, desc ocispec.Descriptor) ([]byte, ocispec.Descriptor, error) {
+	return nil, ocispec.Descriptor{}, errors.New("not needed")
+}
+
+func (r *mockRepo) PushSignature(ctx context.Context, mediaType string, blob []byte, subject ocispec.Descriptor, annotations map[string]string) (ocispec.Descriptor, ocispec.Descriptor, error) {
+	if r.cfg.Push == "fails" {
+		return ocispec.Descriptor{}, ocispec.Descriptor{}, errors.New("push refused")
+	}
+	b := ocispec.Descriptor{MediaType: mediaType, Digest: digest.FromBytes(blob), Size: int64(len(blob))}
+	m := ocispec.Descriptor{MediaType: ocispec.MediaTypeImageManifest, Digest: digest.FromString(fmt.Sprint("manifest", len(r.pushed), b.Digest)), Size: 100}
+	r.pushed = append(r.pushed, m)
+	if r.cfg.Push == "indexDeleteFails" {
+		return b, m, &remote.ReferrersError{Op: "DeleteReferrersIndex", Subject: subject, Err: errors.New("cannot delete the old referrers index")}
+	}
+	return b, m, nil
+}
+
+type handedRec struct {
+	desc ocispec.Descriptor // the object handed out (its Annotations map is the very map SignOCI received)
+	snap ocispec.Descriptor // deep copy taken at that moment
+}
+
+type pushRec struct {
+	subject ocispec.Descriptor
+	ann     map[string]string
+}
+
+// recRepo records what SignOCI asks of the repository behind it.
+type recRepo struct {
+	inner    registry.Repository
+	resolves []string
+	handed   []handedRec
+	pushes   []pushRec
+}
+
+func (r *recRepo) Resolve(ctx context.Context, reference string) (ocispec.Descriptor, error) {
+	r.resolves = append(r.resolves, reference)
+	d, err := r.inner.Resolve(ctx, reference)
+	if err == nil {
+		r.handed = append(r.handed, handedRec{d, cloneDesc(d)})
+	}
+	return d, err
+}
+
+func (r *recRepo) ListSignatures(ctx context.Context, desc ocispec.Descriptor, fn func([]ocispec.Descriptor) error) error {
+	return r.inner.ListSignatures(ctx, desc, fn)
+}
+
+func (r *recRepo) FetchSignatureBlob(ctx context.Context, desc ocispec.Descriptor) ([]byte, ocispec.Descriptor, error) {
+	return r.inner.FetchSignatureBlob(ctx, desc)
+}
+
+func (r *recRepo) PushSignature(ctx context.Context, mediaType string, blob []byte, subject ocispec.Descriptor, annotations map[string]string) (ocispec.Descriptor, ocispec.Descriptor, error) {
+	r.pushes = append(r.pushes, pushRec{cloneDesc(subject), cloneMap(annotations)})
+	return r.inner.PushSignature(ctx, mediaType, blob, subject, annotations)
+}
+
+// ---- worlds ---------------------------------------------------------------------------------
+
+// world is one concretised repository with the probes that tell whether its view of the artifact changed.
+type world struct {
+	backend   string
+	inner     registry.Repository
+	mock      *mockRepo
+	plain     ocispec.Descriptor // mediaType, digest, size of the artifact
+	otherDgst string
+	otherAlg  string
+	dir       string // OCI layout directory ("" otherwise)
+
+	viewTag, viewDigest ocispec.Descriptor // deep copies of what Resolve answered before the first call
+	viewDigestErr       bool
+	indexEntries        []string           // index.json entries of the artifact before the first call
+	reopenedTag         ocispec.Descriptor // what a store opened from disk resolves the tag to
+	blobs               map[string]int64
+}
+
+const artifactMediaType = ocispec.MediaTypeImageManifest
+
+func (w *world) refString(kind string) string {
+	d := w.plain.Digest.String()
+	switch kind {
+	case "tag":
+		return "v1"
+	case "fullTag":
+		return "reg.example/repo:v1"
+	case "hostPortTag":
+		return "localhost:5000/repo:v1"
+	case "digest":
+		return d
+	case "fullDigest":
+		return "reg.example/repo@" + d
+	case "fullTagDigest":
+		return "reg.example/repo:v1@" + d
+	case "otherDigest":
+		return w.otherDgst
+	case "fullOtherDigest":
+		return "reg.example/repo@" + w.otherDgst
+	case "otherAlgDigest":
+		return "reg.example/repo@" + w.otherAlg
+	case "noRef":
+		return "reg.example/repo"
+	case "bareRepo":
+		return "repo"
+	case "unknownTag":
+		return "reg.example/repo:missing"
+	}
+	panic("c11: unknown reference kind " + kind)
+}
+
+func (w *world) argKind(s string) string {
+	switch s {
+	case "v1":
+		return "tag"
+	case w.plain.Digest.String():
+		return "digest"
+	case w.otherDgst, w.otherAlg:
+		return "otherDigest"
+	case "":
+		return "empty"
+	}
+	return "unknown"
+}
+
+func indexEntriesOf(dir string, dg digest.Digest) []string {
+	b, err := os.ReadFile(filepath.Join(dir, "index.json"))
+	if err != nil {
+		return []string{"unreadable: " + err.Error()}
+	}
+	var idx struct {
+		Manifests []json.RawMessage `json:"manifests"`
+	}
+	if err := json.Unmarshal(b, &idx); err != nil {
+		return []string{"undecodable: " + err.Error()}
+	}
+	var out []string
+	for _, m := range idx.Manifests {
+		var d ocispec.Descriptor
+		if json.Unmarshal(m, &d) == nil && d.Digest == dg {
+			// canonical: re-marshal the decoded descriptor (map keys sorted by encoding/json)
+			c, _ := json.Marshal(d)
+			out = append(out, string(c))
+		}
+	}
+	sort.Strings(out)
+	return out
+}
+
+func blobsOf(dir string) map[string]int64 {
+	out := map[string]int64{}
+	filepath.Walk(filepath.Join(dir, "blobs"), func(p string, fi os.FileInfo, err error) error {
+		if err == nil && !fi.IsDir() {
+			rel, _ := filepath.Rel(dir, p)
+			out[rel] = fi.Size()
+		}
+		return nil
+	})
+	return out
+}
+
+func reopenedView(dir string) ocispec.Descriptor {
+	st, err := oci.New(dir)
+	if err != nil {
+		return ocispec.Descriptor{MediaType: "reopen failed: " + err.Error()}
+	}
+	d, err := st.Resolve(context.Background(), "v1")
+	if err != nil {
+		return ocispec.Descriptor{MediaType: "resolve failed: " + err.Error()}
+	}
+	return cloneDesc(d)
+}
+
+// snapshot records the repository's view of the artifact before the first call.
+func (w *world) snapshot() {
+	ctx := context.Background()
+	d, err := w.inner.Resolve(ctx, "v1")
+	if err != nil {
+		panic(fmt.Sprintf("c11: the tag does not resolve: %v", err))
+	}
+	w.viewTag = cloneDesc(d)
+	d, err = w.inner.Resolve(ctx, w.plain.Digest.String())
+	w.viewDigestErr = err != nil
+	w.viewDigest = cloneDesc(d)
+	if w.dir != "" {
+		w.indexEntries = indexEntriesOf(w.dir, w.plain.Digest)
+		w.reopenedTag = reopenedView(w.dir)
+		w.blobs = blobsOf(w.dir)
+	}
+}
+
+// viewSame: does the repository still show the artifact as it did before the first call?
+// pushes = signatures pushed so far (bounds the blobs that may have appeared).
+func (w *world) viewSame(pushes int) bool {
+	ctx := context.Background()
+	d, err := w.inner.Resolve(ctx, "v1")
+	if err != nil || !sameDesc(d, w.viewTag) {
+		return false
+	}
+	d, err = w.inner.Resolve(ctx, w.plain.Digest.String())
+	if (err != nil) != w.viewDigestErr || (err == nil && !sameDesc(d, w.viewDigest)) {
+		return false
+	}
+	if w.mock != nil && !sameDesc(w.mock.art, w.viewTag) {
+		return false
+	}
+	if w.dir != "" {
+		if !reflect.DeepEqual(indexEntriesOf(w.dir, w.plain.Digest), w.indexEntries) {
+			return false
+		}
+		if !sameDesc(reopenedView(w.dir), w.reopenedTag) {
+			return false
+		}
+		now := blobsOf(w.dir)
+		for name, size := range w.blobs {
+			if s, ok := now[name]; !ok || s != size {
+				return false
+			}
+		}
+		// per signature: the envelope and its manifest; once: the empty config
+		if extra := len(now) - len(w.blobs); extra > 2*pushes+1 || (pushes == 0 && extra > 0) {
+			return false
+		}
+	}
+	return true
+}
+
+func (w *world) sigCount() int {
+	n := 0
+	err := w.inner.ListSignatures(context.Background(), w.plain, func(ds []ocispec.Descriptor) error {
+		n += len(ds)
+		return nil
+	})
+	if err != nil {
+		return -1
+	}
+	return n
+}
+
+// ---- running one sequence -------------------------------------------------------------------
+
+type gen struct {
+	c      *common.Ctx
+	chains map[int]*common.Chain
+	thumbs map[int][]string
+	nDirs  int
+}
+
+func newGen(c *common.Ctx) *gen {
+	g := &gen{c: c, chains: map[int]*common.Chain{}, thumbs: map[int][]string{}}
+	nb := time.Unix(0, 0).UTC()
+	na := time.Date(9999, 12, 31, 23, 59, 59, 0, time.UTC)
+	for n := 1; n <= 3; n++ {
+		o := common.ChainOpts{Tag: fmt.Sprintf("c11-%d", n), RootNB: nb, RootNA: na, InterNB: nb, InterNA: na, LeafNB: nb, LeafNA: na}
+		if n == 1 {
+			o.SelfSignedLeaf = true
+		} else {
+			o.Intermediates = n - 2
+		}
+		ch := common.MakeChain(o)
+		if len(ch.Certs) != n {
+			panic("c11: chain length")
+		}
+		g.chains[n] = ch
+		for _, cert := range ch.X509() {
+			sum := sha256.Sum256(cert.Raw)
+			g.thumbs[n] = append(g.thumbs[n], hex.EncodeToString(sum[:]))
+		}
+	}
+	return g
+}
+
+// abstract case before the world exists
+type spec struct {
+	backend   string
+	annPairs  []KV // annotations the artifact is stored / tagged with
+	repo      Repo // honoured by the mock only
+	signer    SignerCfg
+	chainLen  int
+	pluginCfg []KV
+	calls     []Call
+}
+
+func (g *gen) buildWorld(s spec) *world {
+	ctx := context.Background()
+	r := g.c.Rand
+	w := &world{backend: s.backend}
+	ann := toMap(s.annPairs, r.Intn(2) == 0)
+	switch s.backend {
+	case "mock":
+		content := fmt.Sprint("c11 artifact ", r.Intn(4))
+		w.plain = ocispec.Descriptor{MediaType: artifactMediaType, Digest: digest.FromString(content), Size: int64(len(content))}
+		w.otherDgst = digest.FromString("another artifact").String()
+		w.otherAlg = digest.SHA512.FromString(content).String()
+		art := w.plain
+		art.Annotations = ann
+		w.mock = &mockRepo{art: art, cfg: s.repo, other: map[string]bool{w.otherDgst: true, w.otherAlg: true}, nilCopy: r.Intn(2) == 0}
+		w.inner = w.mock
+	case "mem", "oci", "ociReopened":
+		var target oras.GraphTarget
+		if s.backend == "mem" {
+			target = memory.New()
+		} else {
+			g.nDirs++
+			w.dir = filepath.Join(g.c.WorkDir, fmt.Sprintf("layout-%d", g.nDirs))
+			if err := os.MkdirAll(w.dir, 0o755); err != nil {
+				panic(err)
+			}
+			st, err := oci.New(w.dir)
+			if err != nil {
+				panic(err)
+			}
+			target = st
+		}
+		layer, err := oras.PushBytes(ctx, target, "application/vnd.c11.layer", []byte(fmt.Sprint("layer ", r.Intn(4))))
+		if err != nil {
+			panic(err)
+		}
+		md, err := oras.PackManifest(ctx, target, oras.PackManifestVersion1_1, "application/vnd.c11.artifact", oras.PackManifestOptions{
+			Layers:              []ocispec.Descriptor{layer},
+			ManifestAnnotations: map[string]string{ocispec.AnnotationCreated: "2000-01-01T00:00:00Z"},
+		})
+		if err != nil {
+			panic(err)
+		}
+		w.plain = ocispec.Descriptor{MediaType: md.MediaType, Digest: md.Digest, Size: md.Size}
+		tagged := w.plain
+		tagged.Annotations = ann
+		if err := target.Tag(ctx, tagged, "v1"); err != nil {
+			panic(err)
+		}
+		if s.backend == "mem" {
+			// memory.Store resolves a digest only when it was tagged
+			if err := target.Tag(ctx, tagged, w.plain.Digest.String()); err != nil {
+				panic(err)
+			}
+		}
+		w.otherDgst = digest.FromString("another artifact").String()
+		manifestBytes, err := contentOf(ctx, target, md)
+		if err != nil {
+			panic(err)
+		}
+		w.otherAlg = digest.SHA512.FromBytes(manifestBytes).String()
+		if s.backend == "ociReopened" {
+			repo, err := registry.NewOCIRepository(w.dir, registry.RepositoryOptions{})
+			if err != nil {
+				panic(err)
+			}
+			w.inner = repo
+		} else {
+			w.inner = registry.NewRepository(target)
+		}
+	default:
+		panic("c11: backend " + s.backend)
+	}
+	w.snapshot()
+	return w
+}
+
+func contentOf(ctx context.Context, t oras.GraphTarget, d ocispec.Descriptor) ([]byte, error) {
+	rc, err := t.Fetch(ctx, d)
+	if err != nil {
+		return nil, err
+	}
+	defer rc.Close()
+	var buf bytes.Buffer
+	_, err = buf.ReadFrom(rc)
+	return buf.Bytes(), err
+}
+
+// repoFlags: what the real stores do (the model needs to know).
+func (w *world) repoFlags(s spec) Repo {
+	switch w.backend {
+	case "mock":
+		return s.repo
+	case "mem":
+		return Repo{Aliased: true, PlainByDigest: false, AnyDigest: false, Push: "ok"}
+	default:
+		return Repo{Aliased: true, PlainByDigest: true, AnyDigest: false, Push: "ok"}
+	}
+}
+
+func (g *gen) runSpec(s spec) (Input, Obs) {
+	r := g.c.Rand
+	w := g.buildWorld(s)
+	in := Input{
+		Backend: w.backend,
+		Art:     Art{MediaType: w.plain.MediaType, Digest: w.plain.Digest.String(), Size: w.plain.Size, Ann: pairs(w.viewTag.Annotations)},
+		Repo:    w.repoFlags(s), Signer: s.signer, PluginConfig: s.pluginCfg, Calls: s.calls,
+	}
+	if in.Signer.PluginAnn == nil {
+		in.Signer.PluginAnn = []KV{}
+	}
+	if in.PluginConfig == nil {
+		in.PluginConfig = []KV{}
+	}
+	in.Signer.Thumbs = append([]string{}, g.thumbs[s.chainLen]...)
+	sg := &signer{cfg: in.Signer, chain: g.chains[s.chainLen], annNil: r.Intn(2) == 0,
+		zone: time.FixedZone("c11", (r.Intn(27)-12)*3600+r.Intn(2)*1800)}
+	var theSigner notation.Signer = sg
+	if len(in.Signer.PluginAnn) > 0 || r.Intn(2) == 0 {
+		theSigner = annotatingSigner{sg}
+	}
+	rec := &recRepo{inner: w.inner}
+	cfgMap := toMap(in.PluginConfig, r.Intn(2) == 0)
+	cfgCopy := cloneMap(cfgMap)
+	// one UserMetadata map object per run of equal consecutive metadata
+	mdMaps := make([]map[string]string, len(s.calls))
+	mdCopies := make([]map[string]string, len(s.calls))
+	for j, c := range s.calls {
+		if j > 0 && reflect.DeepEqual(c.Md, s.calls[j-1].Md) && r.Intn(4) != 0 {
+			mdMaps[j] = mdMaps[j-1]
+		} else {
+			mdMaps[j] = toMap(c.Md, r.Intn(2) == 0)
+		}
+		mdCopies[j] = cloneMap(mdMaps[j])
+	}
+	obs := Obs{Calls: []CallObs{}}
+	for j, c := range s.calls {
+		opts := notation.SignOptions{
+			SignerSignOptions: notation.SignerSignOptions{SignatureMediaType: common.MediaJWS, PluginConfig: cfgMap, SigningAgent: "c11"},
+			ArtifactReference: w.refString(c.Ref),
+			UserMetadata:      mdMaps[j],
+		}
+		var sgArg notation.Signer = theSigner
+		var repoArg registry.Repository = rec
+		switch c.Opts {
+		case "jws":
+		case "cose":
+			opts.SignatureMediaType = common.MediaCOSE
+		case "nilSigner":
+			sgArg = nil
+		case "nilRepo":
+			repoArg = nil
+		case "negativeExpiry":
+			opts.ExpiryDuration = -time.Second
+		case "subSecondExpiry":
+			opts.ExpiryDuration = 1500 * time.Millisecond
+		case "emptyMediaType":
+			opts.SignatureMediaType = ""
+		case "unsupportedMediaType":
+			opts.SignatureMediaType = "application/pkcs7-signature"
+		default:
+			panic("c11: opts " + c.Opts)
+		}
+		nRes, nGot, nPush := len(rec.resolves), len(sg.got), len(rec.pushes)
+		var artDesc ocispec.Descriptor
+		var err error
+		panicked := false
+		func() {
+			defer func() {
+				if p := recover(); p != nil {
+					panicked = true
+				}
+			}()
+			if j%2 == 1 {
+				// the deprecated wrapper must behave the same
+				artDesc, err = notation.Sign(context.Background(), sgArg, repoArg, opts)
+			} else {
+				artDesc, _, err = notation.SignOCI(context.Background(), sgArg, repoArg, opts)
+			}
+		}()
+		o := CallObs{Ok: err == nil && !panicked}
+		if n := len(rec.resolves) - nRes; n == 1 {
+			k := w.argKind(rec.resolves[nRes])
+			o.ResolveArg = &k
+		} else if n > 1 {
+			k := "unknown" // resolving more than once is not what the model does
+			o.ResolveArg = &k
+			o.Ok = false
+		}
+		if len(sg.got) > nGot {
+			o.Signed = descObs(sg.got[len(sg.got)-1])
+			if len(sg.got)-nGot > 1 || !sameMapObject(sg.gotCfg[len(sg.gotCfg)-1], cfgMap) {
+				o.Signed.MediaType = "signer called twice or with another PluginConfig"
+			}
+		}
+		if len(rec.pushes) > nPush {
+			p := rec.pushes[len(rec.pushes)-1]
+			o.Subject = descObs(p.subject)
+			a := pairs(p.ann)
+			o.PushAnn = &a
+			if len(rec.pushes)-nPush > 1 {
+				o.Subject.MediaType = "pushed twice"
+			}
+		}
+		switch {
+		case panicked:
+			o.Returned = "panicked"
+		case reflect.DeepEqual(artDesc, ocispec.Descriptor{}):
+			o.Returned = "zero"
+		case len(rec.handed) > 0 && len(rec.resolves) > nRes && sameDesc(artDesc, rec.handed[len(rec.handed)-1].snap):
+			o.Returned = "resolved"
+		default:
+			o.Returned = "other"
+		}
+		o.SigCount = w.sigCount()
+		o.RepoViewSame = w.viewSame(o.SigCount)
+		o.HandedSame = true
+		for _, h := range rec.handed {
+			if !sameDesc(h.desc, h.snap) {
+				o.HandedSame = false
+			}
+		}
+		o.OptsSame = sameMap(cfgMap, cfgCopy) && (cfgMap == nil) == (cfgCopy == nil)
+		for k := range mdMaps {
+			if !sameMap(mdMaps[k], mdCopies[k]) || (mdMaps[k] == nil) != (mdCopies[k] == nil) {
+				o.OptsSame = false
+			}
+		}
+		if !sameMap(opts.UserMetadata, mdCopies[j]) || !sameMap(opts.PluginConfig, cfgCopy) {
+			o.OptsSame = false
+		}
+		obs.Calls = append(obs.Calls, o)
+	}
+	if w.dir != "" {
+		os.RemoveAll(w.dir)
+	}
+	return in, obs
+}
+
+func sameMapObject(a, b map[string]string) bool {
+	if a == nil || b == nil {
+		return a == nil && b == nil
+	}
+	return reflect.ValueOf(a).Pointer() == reflect.ValueOf(b).Pointer()
+}
+
+// ---- generators -----------------------------------------------------------------------------
+
+var allRefs = []string{"tag", "fullTag", "hostPortTag", "digest", "fullDigest", "fullTagDigest", "otherDigest",
+	"fullOtherDigest", "otherAlgDigest", "noRef", "bareRepo", "unknownTag"}
+var goodRefs = []string{"tag", "fullTag", "hostPortTag", "digest", "fullDigest", "fullTagDigest"}
+var badOpts = []string{"nilSigner", "nilRepo", "negativeExpiry", "subSecondExpiry", "emptyMediaType", "unsupportedMediaType"}
+
+var annPool = []KV{
+	{"a", "1"}, {"build", "42"}, {"org.example.key", "value"}, {"io.cncf.notary.artifact", "reserved-looking, but the artifact's own"},
+	{"z.last", ""}, {"", "empty key"}, {"Ünïcode", "ключ"}, {"org.opencontainers.image.title", "t"}, {"k with space", "v"}, {"a.b", "2"},
+}
+var freshPool = []KV{
+	{"b", "2"}, {"owner", "me"}, {"org.example.other", "x"}, {"io.cncf.notar", "just short of the prefix"},
+	{"Io.cncf.notary.x", "case differs"}, {"xio.cncf.notary", "not a prefix"}, {"zz", ""}, {"é", "accent"}, {"B", "upper"}, {"a.c", "3"},
+}
+var reservedPool = []KV{
+	{"io.cncf.notary.x", "1"}, {"io.cncf.notary", "exactly the prefix"}, {"io.cncf.notaryfoo", "no dot needed"},
+	{"io.cncf.notary.x509chain.thumbprint#S256", "[]"}, {"io.cncf.notary.verificationPlugin", "p"},
+}
+var specialTimes = []int64{0, 1, 59, 86399, 86400, 68169600 /* 1972-02-29 */, 951782400, 951868799, 951868800, 978307199, 978307200,
+	1709164800 /* 2024-02-29 */, 1727308800, 2147483647, 2147483648, 4107542399, 4107542400, 32503680000 /* 3000-01-01 */, 253402300799}
+
+func pick(r interface{ Intn(int) int }, pool []KV, n int) []KV {
+	idx := map[int]bool{}
+	for len(idx) < n && len(idx) < len(pool) {
+		idx[r.Intn(len(pool))] = true
+	}
+	m := map[string]string{}
+	for i := range idx {
+		m[pool[i][0]] = pool[i][1]
+	}
+	return pairs(m)
+}
+
+func merge(a ...[]KV) []KV {
+	m := map[string]string{}
+	for _, l := range a {
+		for _, p := range l {
+			m[p[0]] = p[1]
+		}
+	}
+	return pairs(m)
+}
+
+// mdOfClass draws a metadata map of the named class against the artifact's annotations
+// (for real layouts the re-opened store adds org.opencontainers.image.ref.name).
+func (g *gen) mdOfClass(class string, art []KV) []KV {
+	r := g.c.Rand
+	switch class {
+	case "empty":
+		return []KV{}
+	case "disjoint":
+		return pick(r, freshPool, 1+r.Intn(3))
+	case "colliding":
+		if len(art) == 0 {
+			return pick(r, freshPool, 1)
+		}
+		p := art[r.Intn(len(art))]
+		v := p[1]
+		if r.Intn(2) == 0 {
+			v = "overwritten"
+		}
+		return merge(pick(r, freshPool, r.Intn(3)), []KV{{p[0], v}})
+	case "reserved":
+		return merge(pick(r, freshPool, r.Intn(3)), pick(r, reservedPool, 1+r.Intn(2)))
+	case "both":
+		if len(art) == 0 {
+			return pick(r, reservedPool, 1)
+		}
+		p := art[r.Intn(len(art))]
+		return merge(pick(r, freshPool, r.Intn(2)), pick(r, reservedPool, 1), []KV{{p[0], "x"}})
+	case "several":
+		return pick(r, freshPool, 4+r.Intn(5))
+	}
+	panic("c11: class " + class)
+}
+
+var mdClasses = []string{"empty", "disjoint", "colliding", "reserved", "both", "several"}
+
+func (g *gen) signerCfg() (SignerCfg, int) {
+	r := g.c.Rand
+	s := SignerCfg{Kind: "ok", PluginAnn: []KV{}}
+	switch x := r.Intn(20); {
+	case x == 0:
+		s.Kind = "fails"
+	case x == 1:
+		s.Kind = "nilInfo"
+	case x == 2:
+		s.Kind = "noTime"
+	}
+	if r.Intn(3) == 0 {
+		s.Time = specialTimes[r.Intn(len(specialTimes))]
+	} else if r.Intn(2) == 0 {
+		s.Time = r.Int63n(253402300800)
+	} else {
+		s.Time = 946684800 + r.Int63n(3155760000) // 2000..2100
+	}
+	switch r.Intn(5) {
+	case 0:
+		s.PluginAnn = pick(r, []KV{{"io.cncf.notary.plugin.x", "1"}, {"plugin.note", "n"}, {"a", "from plugin"}}, 1+r.Intn(2))
+	case 1:
+		// a plugin that tries to set the generated keys itself
+		s.PluginAnn = pick(r, []KV{{"io.cncf.notary.x509chain.thumbprint#S256", "[\"forged\"]"}, {"org.opencontainers.image.created", "1999-01-01T00:00:00Z"}, {"zz", "z"}}, 1+r.Intn(3))
+	}
+	return s, 1 + r.Intn(3)
+}
+
+func (g *gen) emit(s spec) {
+	in, obs := g.runSpec(s)
+	g.c.Emit(in, obs)
+	c := g.c
+	c.Count("backend=" + in.Backend)
+	c.Count(fmt.Sprintf("calls=%d", len(in.Calls)))
+	if len(in.Art.Ann) > 0 {
+		c.Count("artifact=annotated")
+	} else {
+		c.Count("artifact=plain")
+	}
+	for j, call := range in.Calls {
+		c.Count("ref=" + call.Ref)
+		c.Count("opts=" + call.Opts)
+		o := obs.Calls[j]
+		switch {
+		case o.Ok:
+			c.Count("outcome=signed")
+		case o.Signed == nil && o.ResolveArg != nil:
+			c.Count("outcome=refused-before-signer")
+		case o.ResolveArg == nil:
+			c.Count("outcome=refused-before-resolve")
+		default:
+			c.Count("outcome=failed-after-signer")
+		}
+		if len(call.Md) > 0 {
+			c.Count("metadata=non-empty")
+		} else {
+			c.Count("metadata=empty")
+		}
+	}
+	if in.Repo.Aliased {
+		c.Count("resolve=aliased-map")
+	} else {
+		c.Count("resolve=copied-map")
+	}
+}
+
+// Run: (1) the cross product reference x metadata class x annotated? x aliasing x digest view on the
+// mock, single and doubled calls; (2) random sequences of 1..3 calls on the mock with all switches
+// free; (3) random sequences on memory.Store and on-disk OCI layouts.
+func Run(c *common.Ctx) error {
+	g := newGen(c)
+	r := c.Rand
+	nMock, nReal := 2000, 500
+	if c.Thorough() {
+		nMock, nReal = 16000, 4000
+	}
+	// (1) systematic
+	for _, ref := range allRefs {
+		for _, class := range mdClasses {
+			for _, annotated := range []bool{false, true} {
+				for _, aliased := range []bool{true, false} {
+					for _, plain := range []bool{false, true} {
+						if !c.Thorough() && !aliased && plain && class != "colliding" && class != "disjoint" {
+							continue
+						}
+						var art []KV
+						if annotated {
+							art = pick(r, annPool, 1+r.Intn(3))
+						}
+						sc, n := g.signerCfg()
+						sc.Kind = "ok"
+						call := Call{Ref: ref, Md: g.mdOfClass(class, art), Opts: "jws"}
+						calls := []Call{call}
+						if r.Intn(2) == 0 {
+							calls = []Call{call, call}
+						}
+						g.emit(spec{backend: "mock", annPairs: art, repo: Repo{Aliased: aliased, PlainByDigest: plain, AnyDigest: true, Push: "ok"},
+							signer: sc, chainLen: n, pluginCfg: []KV{}, calls: calls})
+					}
+				}
+			}
+		}
+	}
+	randomCalls := func(art []KV, refs []string) []Call {
+		n := 1 + r.Intn(3)
+		var calls []Call
+		same := r.Intn(2) == 0
+		for j := 0; j < n; j++ {
+			if same && j > 0 {
+				calls = append(calls, calls[0])
+				continue
+			}
+			class := mdClasses[r.Intn(len(mdClasses))]
+			if r.Intn(3) == 0 {
+				class = "disjoint"
+			}
+			ref := refs[r.Intn(len(refs))]
+			if r.Intn(3) != 0 {
+				ref = goodRefs[r.Intn(len(goodRefs))]
+			}
+			opts := "jws"
+			if x := r.Intn(12); x == 0 {
+				opts = badOpts[r.Intn(len(badOpts))]
+			} else if x < 4 {
+				opts = "cose"
+			}
+			calls = append(calls, Call{Ref: ref, Md: g.mdOfClass(class, art), Opts: opts})
+		}
+		return calls
+	}
+	// (2) random sequences on the mock
+	for k := 0; k < nMock; k++ {
+		var art []KV
+		if r.Intn(4) != 0 {
+			art = pick(r, annPool, 1+r.Intn(4))
+		}
+		sc, n := g.signerCfg()
+		push := "ok"
+		switch r.Intn(14) {
+		case 0:
+			push = "fails"
+		case 1:
+			push = "indexDeleteFails"
+		}
+		var cfg []KV
+		if r.Intn(3) == 0 {
+			cfg = pick(r, freshPool, 1+r.Intn(2))
+		}
+		g.emit(spec{backend: "mock", annPairs: art, repo: Repo{Aliased: r.Intn(4) != 0, PlainByDigest: r.Intn(3) == 0, AnyDigest: r.Intn(3) != 0, Push: push},
+			signer: sc, chainLen: n, pluginCfg: cfg, calls: randomCalls(art, allRefs)})
+	}
+	// (3) real stores
+	for k := 0; k < nReal; k++ {
+		backend := []string{"oci", "ociReopened", "mem", "oci", "ociReopened"}[r.Intn(5)]
+		var art []KV
+		if r.Intn(4) != 0 {
+			art = pick(r, annPool, 1+r.Intn(4))
+		}
+		// what the store will show for the tag (a re-opened layout adds the ref name annotation)
+		shown := art
+		if backend == "ociReopened" {
+			shown = merge(art, []KV{{ocispec.AnnotationRefName, "v1"}})
+		}
+		sc, n := g.signerCfg()
+		var cfg []KV
+		if r.Intn(3) == 0 {
+			cfg = pick(r, freshPool, 1+r.Intn(2))
+		}
+		g.emit(spec{backend: backend, annPairs: art, signer: sc, chainLen: n, pluginCfg: cfg, calls: randomCalls(shown, allRefs)})
+	}
+	c.Note("C11: reference kinds x metadata classes (empty, disjoint, colliding, reserved, both, several) x annotated/plain artifact x aliased/copied map x plain/annotated digest view on a mock repository (systematic), then %d random sequences of 1..3 SignOCI/Sign calls on the mock (signer and push failures, invalid options, plugin annotations, signing times 1970..9999 in random zones, chains of 1..3 certificates, JWS and COSE) and %d on memory.Store / on-disk OCI layouts (fresh and re-opened), with index.json, blobs, referrers and every argument object compared before/after each call", nMock, nReal)
+	return nil
+}
